@@ -89,6 +89,7 @@ type queue struct {
 	metaPageFct     page.Factory    // meta page factory
 	notEmpty        *sync.Cond      // not empty condition
 	rwMutex         *sync.RWMutex
+	putMutex        sync.Mutex   // serializes appends: index entries must be written in allocation order
 	dirPath         string       // path for queue file
 	appendedSeq     atomic.Int64 // current written sequence
 	dataPageIndex   int64
@@ -192,6 +193,11 @@ func (q *queue) Put(data []byte) error {
 		// if message size > data page size, return err
 		return ErrExceedingMessageSizeLimit
 	}
+
+	// alloc/write/persist of one message must not interleave with another append,
+	// otherwise the last index entry isn't the tail of data page, after reopen the next append overwrites old message.
+	q.putMutex.Lock()
+	defer q.putMutex.Unlock()
 
 	dataPageIndex, dataPage, offset, err := q.alloc(dataLength)
 	if err != nil {
